@@ -12,7 +12,7 @@
     The footprints ([reads], [writes]) are a fixed table per tagger / event-handler class; they are
     validated dynamically by the frame condition on traced runs (Model/ActivatorCases.v). *)
 From Coq Require Import List Arith Bool.
-Require Import JF.Model.Kinematics.
+Require Import JF.Model.Kinematics JF.Model.Reach.
 Import ListNotations.
 
 Inductive comp := CIds | CTraj | CVel | CMode | CCell (l : nat) | COcc (l : nat).
@@ -155,5 +155,32 @@ Definition wiring_static_ok (w : swiring) : bool :=
       | None => false
       | Some reach =>
           forallb (fun a => forallb (fun t => pair_ok w a t false) (can_fire w a)) reach
+      end
+  end.
+
+(** ** The activation vector is a function of the mode of motion.
+
+    [aims]: for every tagger, the mode its event switches to ([Some m] for the two
+    RootLeafUnitActiveSwitcher taggers: 0 = a point mass moves, 1 = a composite object moves), [None]
+    for all other taggers.  [m0] = the mode after the start of the run.  A tagger that a mode switch
+    wrongly leaves deactivated (or activated) makes two different activation vectors reachable in the
+    same mode. *)
+Definition vsucc (w : swiring) (a : avec) : list avec := map (apply_act w a) (can_fire w a).
+
+Definition mstate := (nat * avec)%type.
+Definition mstate_eqb (x y : mstate) : bool := Nat.eqb (fst x) (fst y) && avec_eqb (snd x) (snd y).
+Definition msucc (w : swiring) (aims : list (option nat)) (x : mstate) : list mstate :=
+  map (fun t => (match nth t aims None with Some m => m | None => fst x end, apply_act w (snd x) t))
+      (can_fire w (snd x)).
+Definition mode_fun_on (l : list mstate) : bool :=
+  forallb (fun x => forallb (fun y => negb (Nat.eqb (fst x) (fst y)) || avec_eqb (snd x) (snd y)) l) l.
+Definition mode_fun_ok (w : swiring) (aims : list (option nat)) (m0 : nat) : bool :=
+  match start_index w with
+  | None => false
+  | Some s =>
+      let a1 := apply_act w (all_on w) s in
+      match closureG mstate_eqb (msucc w aims) 128 [(m0, a1)] [(m0, a1)] with
+      | None => false
+      | Some r => mode_fun_on r
       end
   end.
